@@ -57,6 +57,8 @@ def merge_units(paths, flags):
                         if isinstance(dd.get('t'), int):
                             dd['t'] = types[dd['t']]
         for fn in d['functions']:
+            if fn['name'] == 'main' and not fn.get('method'):
+                fn['usr'] = fn['usr'] + '@' + d['main']      # one main per executable
             if fn['usr'] in funcs:
                 continue
             fix_nodes(fn['nodes'])
